@@ -1025,11 +1025,23 @@ class Crystal(object):
         :return Gset: frozenset of group operations
         """
 
-        def rootsofunity(optype):
+        def rootsofunity(optype, rotspins):
             """Return an iterable of roots of unity to try for GroupOp type optype"""
             # always include negation
             rot2, rot4, rot6 = (1, -1), (1, -1, 1j, -1j), tuple(np.exp(n * np.pi * 2j / 6) for n in range(6))
-            return (rot2, rot2, rot6, rot4, None, rot6)[abs(optype) - 1]  # (+-1, +-2, +-3, +-4, .., +-6)
+            phases = list((rot2, rot2, rot6, rot4, None, rot6)[abs(optype) - 1])  # (+-1, +-2, +-3, +-4, .., +-6)
+            # an operation maps an atom onto an atom of the same species whose spin is phase * (rotated spin): for complex scalar
+            # spins the phase is a ratio of two spins of one species, whatever the order of the rotation (a translation from one
+            # sublattice to the next can carry a phase, too); without these the operations found are not closed under products
+            for spinlist, rotspinlist in zip(spins, rotspins):
+                rs0 = next((rs for rs in rotspinlist if isinstance(rs, Number) and abs(rs) > self.threshold), None)
+                if rs0 is None: continue
+                for s in spinlist:
+                    if isinstance(s, Number) and abs(abs(s) - abs(rs0)) < self.threshold:
+                        phase = s / rs0
+                        if not any(abs(phase - p) < self.threshold for p in phases): phases.append(phase)
+                break
+            return phases
 
         def quickabsdet(M):
             if M.shape == (2,2): return abs(M[0,0]*M[1,1]-M[0,1]*M[1,0])
@@ -1065,7 +1077,7 @@ class Crystal(object):
                              for s in spinlist]
                             for spinlist in spins]
                 # if det * tr < -1 or det * tr > 3: return False
-                for phase in rootsofunity(optype):
+                for phase in rootsofunity(optype, rotspins):
                     newspins = [[phase * s for s in spinlist] for spinlist in rotspins]
                     trans, indexmap = maptranslation(self.basis,
                                                      [[np.dot(supercell, u)
